@@ -21,6 +21,8 @@ fams = [
 def nontrivial(st):
     ops = [x['last'].get('op') for x in st[1:]]
     return 'merge' in ops
+import stream_fams
+fams += stream_fams.c03(c)
 tot, stats, samples, nontriv, cover = ec.run_families(c, fams, binp, nontrivial)
 c.cov.update(states=tot['states'], transitions=tot['transitions'], traces_validated_against_impl=0,
              behaviours_replayed=tot['behaviours'], steps_replayed=tot['steps'], simulated_behaviours=tot['sims'],
